@@ -144,13 +144,31 @@ func gen(t *rapid.T) Case {
 // at low precisions.
 func specFloat() *rapid.Generator[pbt.F] {
 	return rapid.Custom(func(t *rapid.T) pbt.F {
-		switch rapid.IntRange(0, 5).Draw(t, "sfk") {
+		switch rapid.IntRange(0, 6).Draw(t, "sfk") {
 		case 0, 1:
 			return pbt.FOf(float64(rapid.IntRange(-2000, 2000).Draw(t, "milli")) / 1000)
 		case 2:
 			return pbt.FOf(float64(rapid.IntRange(-20, 20).Draw(t, "e")) * 1e-7)
 		case 3:
 			return pbt.FOf(rapid.SampledFrom([]float64{0, math.Copysign(0, -1), math.MaxFloat64, -math.MaxFloat64, 1e300, -1e300, 0.5, 0.05, 0.005, 1e-13}).Draw(t, "h"))
+		case 4:
+			// integer/float boundaries: +-2^k and +-10^k, or the float64 right below or above
+			var v float64
+			if rapid.Bool().Draw(t, "pow2") {
+				v = math.Ldexp(1, rapid.SampledFrom([]int{24, 31, 32, 52, 53, 54, 62, 63, 64, 65, 100, 1023}).Draw(t, "k2"))
+			} else {
+				v = math.Pow(10, float64(rapid.SampledFrom([]int{9, 15, 16, 18, 19, 20, 21, 22, 100}).Draw(t, "k10")))
+			}
+			switch rapid.IntRange(0, 3).Draw(t, "nb") {
+			case 0:
+				v = math.Nextafter(v, 0)
+			case 1:
+				v = math.Nextafter(v, math.Inf(1))
+			}
+			if rapid.Bool().Draw(t, "neg") {
+				v = -v
+			}
+			return pbt.FOf(v)
 		default:
 			return pbt.FiniteFloat().Draw(t, "ff")
 		}
@@ -327,7 +345,7 @@ func run(c Case) (pbt.Outcome, error) {
 func TestC18(t *testing.T) {
 	pbt.Main(t, pbt.Prop[Case]{
 		ID: "C18", Name: "statsd",
-		Rule: "rapid-generated reporter configurations (sample rate unset/1/(0,1], precision unset/1..12) and call lists (1..8 calls: counters, gauges, timers with hostile int64/float64 values and arbitrary byte-string names; value and duration histograms with 0..8 bounds whose every bucket pair from the reference tiling is reported); a recording Statter must see exactly one call per reporter call with the reference-rendered name, value and rate, and buckets that differ at the precision must not share a name. Non-trivial: a histogram with >=3 buckets (both open ends included). Distinct: FNV-64 of the case JSON.",
+		Rule: "rapid-generated reporter configurations (sample rate unset/1/(0,1], precision unset/1..12) and call lists (1..8 calls: counters, gauges, timers with hostile int64/float64 values and arbitrary byte-string names; value and duration histograms with 0..8 bounds (milli-steps, 1e-7 steps, hostile constants, +-2^k and +-10^k at the integer/float conversion boundaries and their float64 neighbours, any finite float) whose every bucket pair from the reference tiling is reported); a recording Statter must see exactly one call per reporter call with the reference-rendered name, value and rate, and buckets that differ at the precision must not share a name. Non-trivial: a histogram with >=3 buckets (both open ends included). Distinct: FNV-64 of the case JSON.",
 		Gen:  gen, Run: run, HangAfter: 20 * time.Second,
 	})
 }
